@@ -11,6 +11,13 @@ S2 streams (all on REAL CMDRequest / CMDResponse instances inside a real HWSyste
   resp-oracle   characters handed over on valid&ready == '=' ++ upper-case hex MSB first ++ '!', prefix while stalled,
                 complete once the consumer has been ready often enough
   sys           CMDRequest.start_resp wired into CMDResponse, host-like stream with '\n' separators
+  chain         the closed HIL chain as createHILUART wires it (real CMDRequest -> Reg index_out_r -> Mux pair over the output
+                table -> CMDResponse, shared start_resp) with an OPEN-LOOP host (it does not wait for '!'): the gap before a later
+                'O<n>?' is swept exhaustively over a window around the end of the previous response for several consumer ready
+                patterns; oracle = the session monitor (Hil.monStep: a start pulse seen while nothing is owed must be answered
+                completely within 2*size+4 ready cycles, any other start pulse is ignored, no other character) + the sampled
+                (vin,size) at every start pulse = table[n] of the corresponding O command; rows vs the Lean chain model
+  resp-session  arbitrary start/vin/size/ready sequences on a bare CMDResponse: rows vs model AND the session monitor
 The specification functions (Cmd.chars / Cmd.meaning / events / response) are evaluated in Lean through Drv/C20.lean;
 a direct Python transcription of the same *specification* (not of the code) is evaluated as well so that the failing
 input search still runs when the Lean side does not build; the two are compared with each other on every case."""
@@ -30,6 +37,13 @@ OBLIGATIONS = [
     'C20.resp_run', 'C20.resp_prefix', 'C20.resp_complete', 'C20.resp_live', 'C20.resp_string', 'C20.resp_idle_silent',
     'C20.resp_busy_ignores_inputs', 'C20.resp_size_zero', 'C20.hexUpper_length', 'C20.hexUpper_roundtrip',
     'C20.response_unmasked',
+    # sessions (arbitrary start pulses) against the specification monitor; "a start pulse seen in state 0 is always answered"
+    'C20.busy_ignores', 'C20.resp_step_any', 'C20.coup_powerup', 'C20.resp_session_step', 'C20.resp_session_run', 'C20.respObs_xfers',
+    'C20.resp_answered', 'C20.resp_session', 'C20.resp_query_answered',
+    # the chain CMDRequest -> Reg(index_out_r) -> table -> CMDResponse
+    'C20.selNext_eq', 'C20.selInv_init', 'C20.selInv_step', 'C20.chain_step_inv', 'C20.chain_run_inv', 'C20.index_out_step',
+    'C20.lastSel_evOf', 'C20.index_out_tracks', 'C20.trace_eq_reqRun', 'C20.chainIns_proj', 'C20.queries_of_meaning',
+    'C20.chain_any_inputs', 'C20.hil_chain_stream',
 ]
 
 CMD_ALPHA = [ord(ch) for ch in 'I=OK!?;0123456789ABCDEF']
@@ -157,6 +171,83 @@ class RealResp:
     def row(self):
         q = self.resp
         return [q.aux, q.state, q.temp, q.temp_size, self.rv.get(), self.rc.get()]
+
+
+class Monitor:
+    """Python transcription of the SPECIFICATION monitor Hil.monStep (Proto/HilChain.lean), not of the code: `pend` = characters
+    still owed to the consumer ([] = nothing in flight: a start pulse must be accepted now), `bud` = ready cycles left."""
+
+    def __init__(self, wv):
+        self.wv, self.pend, self.bud, self.accepted = wv, [], 0, []
+
+    def step(self, start, vin, size, ready, x):
+        """x = list of characters handed over at this edge. returns None or the violated clause"""
+        if not self.pend:
+            if x:
+                return 'a character was handed over although no response is owed'
+            if start:
+                self.pend, self.bud = response_spec(self.wv, size, vin), 2 * size + 4
+                self.accepted.append((vin, size))
+            return None
+        bud = max(self.bud - (1 if ready else 0), 0)
+        if not x:
+            if bud == 0:
+                return 'a start pulse seen by the idle encoder was not answered completely within 2*size+4 ready cycles'
+            self.bud = bud
+            return None
+        if x == [self.pend[0]]:
+            if self.pend[1:] and bud == 0:
+                return 'a start pulse seen by the idle encoder was not answered completely within 2*size+4 ready cycles'
+            self.pend, self.bud = self.pend[1:], bud
+            return None
+        return 'the character handed over is not the next character of the owed response'
+
+
+def monitor_run(wv, obs):
+    """obs: list of (start, vin, size, ready, x) with x = -1 or the character. returns (first bad cycle or None, clause, monitor)"""
+    m = Monitor(wv)
+    m.accepted_at = []
+    for t, (st, vin, sz, rd, x) in enumerate(obs):
+        if st and not m.pend:
+            m.accepted_at.append(t)
+        e = m.step(st, vin, sz, rd, [] if x < 0 else [x])
+        if e:
+            return t, e, m
+    return None, None, m
+
+
+class RealChain:
+    """the chain of createHILUART: CMDRequest -> Reg(index_out_r, enable=set_index_out) -> Mux(resp_v) / Mux(resp_size) over the
+    output table (Constants) -> CMDResponse, start_resp shared. All blocks are the real py4hw ones."""
+
+    def __init__(self, cfg, wv, table, sizes):
+        py4hw, H = _mods()
+        s = py4hw.HWSystem()
+        self.ready, self.valid, self.c = s.wire('ready'), s.wire('valid'), s.wire('c', 8)
+        self.index_in, self.v_in, self.index_out = s.wire('index_in', cfg[0]), s.wire('v_in', cfg[1]), s.wire('index_out', cfg[2])
+        self.sii, self.sv, self.sio = s.wire('set_index_in'), s.wire('set_v_in'), s.wire('set_index_out')
+        self.clkp, self.sr = s.wire('clk_pulse'), s.wire('start_resp')
+        self.req = H.CMDRequest(s, 'req', self.ready, self.valid, self.c, self.index_in, self.v_in, self.index_out,
+                                self.sii, self.sv, self.sio, self.clkp, self.sr)
+        self.sel = s.wire('index_out_r', cfg[2])
+        py4hw.Reg(s, 'index_out_r', d=self.index_out, enable=self.sio, q=self.sel)
+        nout = 1 << cfg[2]
+        reg_out, size_out = s.wires('reg_out', nout, 32), s.wires('size_out', nout, 8)
+        for i in range(nout):
+            py4hw.Constant(s, f'out_{i}', table[i], reg_out[i])
+            py4hw.Constant(s, f'out_size{i}', sizes[i], size_out[i])
+        self.vin, self.size = s.wire('resp_v', 32), s.wire('resp_size', 8)
+        py4hw.Mux(s, 'resp_v', self.sel, reg_out, self.vin)
+        py4hw.Mux(s, 'resp_size', self.sel, size_out, self.size)
+        self.rr, self.rv, self.rc = s.wire('rr'), s.wire('rv'), s.wire('rc', wv)
+        self.resp = H.CMDResponse(s, 'resp', self.vin, self.size, self.sr, self.rr, self.rv, self.rc)
+        self.sim = s.getSimulator()
+
+    def row(self):
+        q, p = self.req, self.resp
+        return [q.cur_type, q.new_c, q.state, q.temp, self.ready.get(), self.sii.get(), self.sv.get(), self.sio.get(),
+                self.index_in.get(), self.sr.get(), self.v_in.get(), self.index_out.get(), self.clkp.get(),
+                self.sel.get(), p.aux, p.state, p.temp, p.temp_size, self.rv.get(), self.rc.get()]
 
 
 class Producer:
@@ -465,8 +556,9 @@ def fail_resp(res, what, rp):
         res.fail(what, rp)
 
 
-def run_resp_real(wv, wvin, ins):
-    """ins: list of (start, vin, size, ready). returns (rows, transfers, raised_at)"""
+def run_resp_real(wv, wvin, ins, obs=None):
+    """ins: list of (start, vin, size, ready). returns (rows, transfers, raised_at); obs (optional list) receives, per cycle, the
+    observation (start, vin, size, ready, x) at the ports before the edge, x = character handed over at this edge or -1"""
     R = RealResp(wv, wvin)
     rows, tr = [], []
     for t, (st, vin, sz, rdy) in enumerate(ins):
@@ -476,6 +568,8 @@ def run_resp_real(wv, wvin, ins):
         R.rr.put(rdy)
         if R.rv.get() and R.rr.get():
             tr.append(R.rc.get())
+        if obs is not None:
+            obs.append((R.sr.get(), R.vin.get(), R.size.get(), R.rr.get(), R.rc.get() if (R.rv.get() and R.rr.get()) else -1))
         try:
             with contextlib.redirect_stdout(io.StringIO()):
                 R.sim.clk(1)
@@ -551,6 +645,12 @@ def resp_stream(res, tier, rng, driver_ok):
                     rdis(res, 'resp-rows', dict(rp, first_diff=_first_diff(got_rows, want_rows)))
                 elif f[1] != want_tr:
                     rdis(res, 'resp-transfers', dict(rp, model=f[1], real=want_tr))
+            elif kind == 'mon':
+                bad, m = dat
+                f = [x.strip() for x in ans.split('|')]
+                want = ['ok' if bad is None else f'viol,{bad}', str(len(m.pend)), str(m.bud), ';'.join(f'{a},{b}' for a, b in m.accepted)]
+                if f != want:
+                    rdis(res, 'monitor(lean spec vs python transcription of the spec)', dict(rp, lean=f, python=want))
             else:
                 if ans.strip() != ','.join(str(x) for x in dat):
                     rdis(res, 'resp-spec(lean spec vs python transcription of the spec)', dict(rp, lean=ans, python=dat))
@@ -570,7 +670,8 @@ def resp_stream(res, tier, rng, driver_ok):
             for rd in cs['ready']:
                 # vin/size junk while busy; start stays 0 (one-cycle pulse from CMDRequest)
                 ins.append((0, r.bits(wvin) if r else 0, r.randint(0, 255) if r else 0, rd))
-        rows, tr, raised = run_resp_real(wv, wvin, ins)
+        sobs = [] if 'ins' in cs else None
+        rows, tr, raised = run_resp_real(wv, wvin, ins, sobs)
         res.count(('resp', cs['kind'], wv, wvin, tuple(ins)), hist={'resp_kind': cs['kind']})
         for rw in rows:
             res.hist('resp_state_visited', rw[1])
@@ -597,7 +698,20 @@ def resp_stream(res, tier, rng, driver_ok):
             if len(res.cov['samples']) < 8 and cs['kind'] == 'rand':
                 res.sample(rp)
         else:
-            rp = dict(stream='resp-session', wv=wv, wvin=wvin, ins=ins)
+            # sessions: ARBITRARY start/vin/size/ready sequences -- the specification monitor (Hil.monStep; C20.resp_session) decides
+            # which start pulses must be answered (those seen while nothing is owed) and checks every handed-over character
+            rp = dict(stream='resp-session', wv=wv, wvin=wvin, ins=ins, observed=tr, text=''.join(chr(c) if 32 <= c < 127 else '.' for c in tr))
+            bad, clause, m = monitor_run(wv, sobs)
+            res.hist('session_accepted_starts', min(len(m.accepted), 9))
+            if raised is not None:
+                fail_resp(res, 'CMDResponse.clock raised ValueError (session)', dict(rp, raised_at=raised))
+            elif bad is not None:
+                exp_all = [c for vin, sz in m.accepted for c in response_spec(wv, sz, vin)]
+                fail_resp(res, 'session: ' + clause, dict(rp, cycle=bad, accepted_starts=[list(a) for a in m.accepted], accepted_at=m.accepted_at,
+                                                      expected=exp_all, expected_text=''.join(chr(c) if 32 <= c < 127 else '.' for c in exp_all)))
+            if driver_ok:
+                lines.append(f"respmon | {wv} | {';'.join(','.join(str(x) for x in o) for o in sobs)}")
+                infos.append(('mon', rp, (bad, m)))
         if driver_ok:
             lines.append(f"resp | {wv} | 0,0,0,0,0,0 | {';'.join(','.join(str(x) for x in i) for i in ins)}")
             infos.append(('rows', rp, (rows, tr, raised)))
@@ -726,6 +840,232 @@ def sys_stream(res, tier, rng, driver_ok):
 
 
 # ------------------------------------------------------------------------------------------------
+CHAIN_PATTERNS = [[1], [1, 0], [0, 1], [1, 1, 0], [0, 0, 1], [1, 0, 0, 0, 0], [0, 1, 1, 1], [1, 0, 0]]
+
+
+def _ready_window(pattern, need):
+    """smallest number of cycles (from any phase of the periodic pattern) within which `need` ready cycles certainly occur"""
+    ones = sum(pattern)
+    return ((need + ones - 1) // ones + 1) * len(pattern)
+
+
+def run_chain_real(cfg, wv, table, sizes, items, ready_fn, cap, tail_need):
+    """open-loop host (never waits for a response). returns (ins, rows, obs, left, raised): ins = (valid,c,ready) per cycle,
+    rows = RealChain.row() after every edge, obs = (start,vin,size,ready,x) at the encoder's ports before every edge.
+    Runs until the producer is through, the decoder is back in its accepting state and the consumer has been ready
+    `tail_need` more times (enough for the specification's deadline of the last response to expire), bounded by `cap`."""
+    R = RealChain(cfg, wv, table, sizes)
+    P = Producer(items)
+    ins, rows, obs = [], [], []
+    tail = 0
+    raised = None
+    while tail < tail_need and len(rows) < cap:
+        v, c = P.out()
+        rd = ready_fn(len(rows))
+        R.valid.put(v); R.c.put(c); R.rr.put(rd)
+        rdy = R.ready.get()
+        x = R.rc.get() if (R.rv.get() and rd) else -1
+        obs.append((R.sr.get(), R.vin.get(), R.size.get(), rd, x))
+        try:
+            with contextlib.redirect_stdout(io.StringIO()):
+                R.sim.clk(1)
+        except ValueError:
+            _mods()[0].Wire.prepared = []
+            raised = len(rows)
+            ins.append((v, c, rd))
+            break
+        P.next(rdy)
+        ins.append((v, c, rd))
+        rows.append(R.row())
+        if not P.items and R.req.state == 1 and rd:
+            tail += 1
+    return ins, rows, obs, len(P.items), raised
+
+
+def chain_stream(res, tier, rng, driver_ok):
+    """see module docstring: closed chain, open-loop host, exhaustive sweep of the gap before each later query"""
+    cases = []
+    quick = tier == 'quick'
+    # --- the kernel-checked run of Props/C20.lean (exChainRun): "O1?" "O2?", 8 idle cycles before the second 'O', consumer ready in even
+    #     cycles: the second start pulse is seen in the first idle cycle after the '!' handshake and must be answered ("=A5!=3C7!")
+    cases.append(dict(cfg=(4, 8, 3), wv=8, table=[0, 0xA5, 0x3C7, 0, 0, 0, 0, 0], sizes=[0, 2, 3, 0, 0, 0, 0, 0], cmds=[('O', [1]), ('O', [2])],
+                      gaps=[0, 0, 0, 8, 0, 0], pat=[1, 0], phase=0, kind='lean-example'))
+    # --- exhaustive gap sweeps: two queries (optionally a third / other commands in between), the gap before the later query's
+    #     'O' (and, second family, before its '?') runs over the whole window in which the previous response can still be in flight
+    npat = len(CHAIN_PATTERNS)
+    fam = 0
+    for pi, pat in enumerate(CHAIN_PATTERNS):
+        for s1 in ([0, 2] if quick else [0, 1, 2, 3, 5]):
+            r = rng.fork(('chain-sweep', pi, s1))
+            wout = r.randint(1, 3)
+            nout = 1 << wout
+            cfg = (r.randint(1, 4), 32, wout)
+            table = [r.bits(32) for _ in range(nout)]
+            sizes = [r.randint(0, 8) for _ in range(nout)]
+            n1, n2 = r.randint(0, nout - 1), r.randint(0, nout - 1)
+            sizes[n1] = s1
+            if n2 != n1:
+                sizes[n2] = r.choice([0, 1, 3, 8])
+            win = _ready_window(pat, 2 * s1 + 4) + 14
+            where = fam % 3          # 0: gap before 'O', 1: gap before '?', 2: gap before 'O' with a K command in between
+            fam += 1
+            phase = r.randint(0, len(pat) - 1)
+            for gap in range(0, win + 1):
+                q1, q2 = ('O', [n1]), ('O', [n2])
+                cmds = [q1] + ([('K', [2])] if where == 2 else []) + [q2]
+                chars = [ch for cmd in cmds for ch in cmd_chars(cmd)]
+                gaps = [0] * len(chars)
+                pos = len(chars) - (1 if where == 1 else len(cmd_chars(q2)))
+                gaps[pos] = gap
+                cases.append(dict(cfg=cfg, wv=8, table=table, sizes=sizes, cmds=cmds, gaps=gaps, pat=pat, phase=phase, kind='sweep'))
+    # --- three queries, both gaps swept over a coarse grid x fine alignment
+    for i in range(6 if quick else 24):
+        r = rng.fork(('chain-three', i))
+        wout = r.randint(1, 2)
+        nout = 1 << wout
+        cfg = (2, 32, wout)
+        table = [r.bits(32) for _ in range(nout)]
+        sizes = [r.randint(0, 3) for _ in range(nout)]
+        pat = r.choice(CHAIN_PATTERNS[:5])
+        ns = [r.randint(0, nout - 1) for _ in range(3)]
+        win = _ready_window(pat, 2 * 3 + 4) + 10
+        for g1 in range(0, win, 1 if not quick else 3):
+            for g2 in ([0, 3, 11] if quick else [0, 1, 3, 11, 23]):
+                cmds = [('O', [n]) for n in ns]
+                chars = [ch for cmd in cmds for ch in cmd_chars(cmd)]
+                gaps = [0] * len(chars)
+                gaps[3], gaps[6] = g1, (g1 + g2) % (win + 1)
+                cases.append(dict(cfg=cfg, wv=8, table=table, sizes=sizes, cmds=cmds, gaps=gaps, pat=pat, phase=0, kind='three'))
+    # --- seeded random command mixes, random gaps, random (aperiodic) ready
+    for i in range(60 if quick else 1500):
+        r = rng.fork(('chain-rand', i))
+        wout = r.randint(1, 3)
+        nout = 1 << wout
+        cfg = (r.randint(1, 4), r.choice([8, 32]), wout)
+        table = [r.bits(32) for _ in range(nout)]
+        sizes = [r.choice([0, 1, 2, 3, 4, 8, 9, r.randint(0, 12)]) for _ in range(nout)]
+        cmds = []
+        for _ in range(r.randint(2, 7)):
+            kk = r.choice(['O', 'O', 'O', 'I', 'K', 'S'])
+            if kk == 'O':
+                cmds.append(('O', [int(ch, 16) for ch in f'{r.randint(0, 2 * nout):X}']))      # also indices beyond the table: masked by the bus
+            elif kk == 'I':
+                cmds += [('I', [r.randint(0, 15)]), ('V', gen_digits(r, 8))]
+            elif kk == 'K':
+                cmds.append(('K', [r.randint(0, 5)]))
+            else:
+                cmds.append(('S', [10]))
+        chars = [ch for cmd in cmds for ch in cmd_chars(cmd)]
+        gmode = r.randint(0, 3)
+        gaps = [0 if gmode == 0 else (r.randint(0, 3) if gmode == 1 else (r.choice([0, 0, 0, 9, 20, 31]) if gmode == 2 else r.randint(0, 40)))
+                for _ in chars]
+        rp = ready_pattern(r, r.randint(3, 17))
+        if not any(rp):
+            rp[0] = 1
+        cases.append(dict(cfg=cfg, wv=r.choice([8, 8, 7, 4]), table=table, sizes=sizes, cmds=cmds, gaps=gaps, pat=rp, phase=0, kind='rand'))
+    lines, infos = [], []
+
+    def flush():
+        if not (driver_ok and lines):
+            return
+        outs = run_driver('Drv/C20.lean', lines)
+        for (kind, rp, dat), ans in zip(infos, outs):
+            res.cov['disagreements_checked'] += 1
+            f = [x.strip() for x in ans.split('|')]
+            if kind == 'chain':
+                rows, tr, raised = dat
+                want = [','.join(str(x) for x in rw) for rw in rows] + (['raise'] if raised is not None else [])
+                got = f[0].split(';') if f[0] else []
+                if got != want:
+                    rdis(res, 'chain-rows', dict(rp, first_diff=_first_diff(got, want)))
+                elif raised is None and f[1] != ','.join(str(x) for x in tr):
+                    rdis(res, 'chain-transfers', dict(rp, model=f[1], real=tr))
+            else:
+                bad, m = dat
+                want = ['ok' if bad is None else f'viol,{bad}', str(len(m.pend)), str(m.bud), ';'.join(f'{a},{b}' for a, b in m.accepted)]
+                if f != want:
+                    rdis(res, 'monitor(lean spec vs python transcription of the spec)', dict(rp, lean=f, python=want))
+        del lines[:]
+        del infos[:]
+
+    ncase = 0
+    for cs in cases:
+        if len(res.failures) >= MAX_RECORDED:
+            res.notes.append('chain_stream cut short: 60 failing inputs already recorded')
+            break
+        cfg, wv, table, sizes, cmds, pat = cs['cfg'], cs['wv'], cs['table'], cs['sizes'], cs['cmds'], cs['pat']
+        nout = 1 << cfg[2]
+        chars = [ch for cmd in cmds for ch in cmd_chars(cmd)]
+        items = [([0] * g, ch) for g, ch in zip(cs['gaps'], chars)]
+        ph = cs['phase']
+        ready_fn = lambda t, pat=pat, ph=ph: pat[(t + ph) % len(pat)]
+        smax = max(sizes)
+        tail_need = 2 * smax + 6
+        cap = cycle_budget(items, cmds) + (tail_need + 2 * smax + 8) * (len(pat) + 1) * (1 + sum(1 for k_, _ in cmds if k_ == 'O'))
+        ins, rows, obs, left, raised = run_chain_real(cfg, wv, table, sizes, items, ready_fn, cap, tail_need)
+        res.count(('chain', cs['kind'], cfg, wv, tuple(chars), tuple(cs['gaps']), tuple(pat), ph, tuple(sizes)),
+                  hist={'chain_kind': cs['kind'], 'chain_queries': sum(1 for k_, _ in cmds if k_ == 'O')})
+        tr = [o[4] for o in obs if o[4] >= 0]
+        rp = dict(stream='chain', cfg=list(cfg), wv=wv, table=table, sizes=sizes, cmds=[cmd_str(c) for c in cmds], gaps=cs['gaps'],
+                  ready_pattern=pat, ready_phase=ph, cycles=len(rows), text=''.join(chr(c) if 32 <= c < 127 else '.' for c in tr))
+        # ---- oracle 1: the session monitor on what the encoder's ports showed
+        bad, clause, m = monitor_run(wv, obs)
+        starts = [t for t, o in enumerate(obs) if o[0]]
+        hands = [t for t, o in enumerate(obs) if o[4] == 33 % (1 << wv)]
+        rp.update(start_cycles=starts[:12], bang_cycles=hands[:12])
+        if raised is not None:
+            rfail(res, 'CMDResponse.clock raised ValueError (chain stream)', dict(rp, raised_at=raised))
+        elif bad is not None:
+            exp_all = [c for vin, sz in m.accepted for c in response_spec(wv, sz, vin)]
+            rfail(res, 'chain: ' + clause, dict(rp, cycle=bad, accepted_starts=[list(a) for a in m.accepted], expected=exp_all, observed=tr,
+                                               expected_text=''.join(chr(c) if 32 <= c < 127 else '.' for c in exp_all)))
+        elif m.pend:
+            rfail(res, 'chain: the run ended with a response still owed (encoder or consumer stalled within the cycle budget)',
+                  dict(rp, owed=m.pend, budget=cap))
+        # ---- oracle 2: decoder events and what every start pulse selects
+        exp = [e for cmd in cmds for e in cmd_meaning(cfg, cmd)]
+        ev = events_of([rw[4:13] for rw in rows], limit=len(exp) + 64)
+        if left:
+            rfail(res, 'the decoder stopped accepting characters (chain stream)', dict(rp, characters_left=left, budget=cap))
+        elif ev != exp:
+            rfail(res, 'decoded strobe events differ from the meaning of the command stream (chain stream)',
+                  dict(rp, expected=exp[:60], observed=ev[:60]))
+        else:
+            want_sel = [(table[hex_val(ds) % nout], sizes[hex_val(ds) % nout]) for k_, ds in cmds if k_ == 'O']
+            got_sel = [(o[1], o[2]) for o in obs if o[0]]
+            if got_sel != want_sel:
+                rfail(res, 'chain: the value/size presented with a start pulse is not the table entry of the queried output',
+                      dict(rp, expected=[list(x) for x in want_sel], observed=[list(x) for x in got_sel]))
+        # which alignment was hit (evidence): distance between a start pulse and the previous '!' handshake
+        for t in starts:
+            prev = [h for h in hands if h < t]
+            if t not in m.accepted_at:
+                res.hist('chain_start_alignment', 'response in flight (ignored by the specification too)')
+            elif not prev:
+                res.hist('chain_start_alignment', 'first query')
+            else:
+                d = t - prev[-1]
+                res.hist('chain_start_alignment', f"{d} cycle(s) after the previous '!' handshake" if d <= 3 else "> 3 cycles after the previous '!' handshake")
+        res.hist('chain_accepted_of_starts', f'{len(m.accepted)}/{len(starts)}')
+        if len(res.cov['samples']) < 12 and cs['kind'] == 'sweep' and len(m.accepted) == 2:
+            res.sample(rp)
+        # the Lean side runs interpreted: every case gets the (Python-evaluated) oracles, a fixed slice of the cases (every 8th in the
+        # quick tier, every 6th in the thorough tier, all failing ones) additionally goes through the Lean chain model and the Lean monitor
+        ncase += 1
+        if cs['kind'] == 'lean-example' and raised is None and bad is None and tr != [61, 65, 53, 33, 61, 51, 67, 55, 33]:
+            rfail(res, 'chain: the run of the Lean example exChainRun does not send "=A5!=3C7!"', rp)
+        if driver_ok and (ncase % (8 if quick else 6) == 0 or bad is not None or cs['kind'] == 'lean-example'):
+            c = ','.join(str(x) for x in cfg)
+            lines.append(f"chain | {c} | {wv} | {';'.join(f'{a},{b}' for a, b in zip(table, sizes))} | {';'.join(','.join(str(x) for x in i_) for i_ in ins)}")
+            infos.append(('chain', rp, (rows, tr, raised)))
+            lines.append(f"respmon | {wv} | {';'.join(','.join(str(x) for x in o) for o in obs)}")
+            infos.append(('mon', rp, (bad, m)))
+            if len(lines) >= 400:
+                flush()
+    flush()
+
+
+# ------------------------------------------------------------------------------------------------
 def main(res, tier, rng, replay):
     ok, metas, errors, changed = regenerate()
     for e in errors:
@@ -737,24 +1077,24 @@ def main(res, tier, rng, replay):
         lk = _c._lock()
         try:
             pc = subprocess.run(['lake', 'env', 'leanchecker', 'Py4hwV.Props.C20', 'Py4hwV.Proofs.C20Req', 'Py4hwV.Proofs.C20Resp',
-                                 'Py4hwV.Proto.Hil'], cwd=LEAN, capture_output=True, text=True, timeout=1500)
+                                 'Py4hwV.Proofs.C20Chain', 'Py4hwV.Proto.Hil', 'Py4hwV.Proto.HilChain'], cwd=LEAN, capture_output=True, text=True, timeout=1500)
         finally:
             lk.close()
         res.cov['checker_cmd'] += ' && lake env leanchecker <C20 modules>'
         if pc.returncode != 0:
             res.broken.append(('proof', 'leanchecker', (pc.stdout + pc.stderr)[-400:]))
     # the model files the driver imports must build even when a proof does not
-    okm, outm = lean_build(['Py4hwV.Proto.Hil'])
+    okm, outm = lean_build(['Py4hwV.Proto.Hil', 'Py4hwV.Proto.HilChain'])
     driver_ok = okm
     if not okm:
-        res.broken.append(('model', 'Py4hwV.Proto.Hil', 'does not build against the regenerated Gen.Fsm: ' +
+        res.broken.append(('model', 'Py4hwV.Proto.Hil / HilChain', 'does not build against the regenerated Gen.Fsm: ' +
                            ' // '.join([l for l in outm.split('\n') if 'error' in l][:4])))
     if ok and driver_ok:
         try:
             t1.validate_generated(res, rng.fork('t1'), 300 if tier == 'quick' else 6000, classes=['CMDRequest', 'CMDResponse'])
         except ToolFailure as e:
             res.broken.append(('correspondence', 'T1', f'generated definitions do not run: {e}'))
-    for fn in (req_stream, resp_stream, sys_stream):
+    for fn in (req_stream, resp_stream, sys_stream, chain_stream):
         try:
             fn(res, tier, rng.fork(fn.__name__), driver_ok)
         except ToolFailure as e:
@@ -767,17 +1107,24 @@ def main(res, tier, rng, replay):
                        '0-20 digits, K up to kmax pulses, bus widths 1-64 so that masking is hit), malformed streams (model vs code '
                        'only). Responses: every ready pattern of a fixed length for one digit, every value for <= 3 digits under three '
                        'pacings, seeded random (1-40 digits, value widths 1-80, character wire 1-9 bits, 7 pacing modes), sessions with '
-                       'junk inputs and size 0. System: request decoder driving the encoder through start_resp with a host that waits '
-                       'for "!". Every case: real blocks in a real HWSystem, sim.clk(1) per cycle, all state fields and wires compared '
+                       'junk inputs and size 0 (rows vs model AND the session monitor). System: request decoder driving the encoder through '
+                       'start_resp with a host that waits for "!". Chain (real CMDRequest -> Reg -> Mux pair over the table -> CMDResponse, '
+                       'open-loop host): for 8 consumer ready patterns x response sizes, the gap before the later query (before its "O", before '
+                       'its "?", with a K command in between) swept over EVERY value of the window in which the previous response can still be '
+                       'in flight (+14), three-query grids, seeded random command mixes with aperiodic ready; histogram '
+                       'chain_start_alignment shows how often a start pulse landed 1/2/3 cycles after the previous "!" handshake. Every case: real blocks in a real HWSystem, sim.clk(1) per cycle, all state fields and wires compared '
                        'with the Lean model every cycle, and the specification evaluated on the observed wires.')
     res.assumptions += [
         'strobe, ready and valid wires are 1 bit wide (as createHILUART builds them); bus widths and the character wire width are variables',
         'the producer is ready/valid compliant: once valid is raised, valid and c are held until the edge at which ready is 1',
         'requests: the theorems cover streams of well-formed commands (upper-case hex digits, any count incl. none) separated by any '
         'characters outside the command alphabet; malformed streams are covered by the model-vs-code correspondence only',
-        'response: every size incl. 0 (resp_size_zero; size 0 raised ValueError before /repo 21add98); start_resp is a one-cycle pulse '
-        'that arrives while the encoder is idle (a pulse while busy is ignored: resp_busy_ignores_inputs); the consumer drives an '
-        'arbitrary ready sequence that does not depend combinationally on valid',
+        'response: every size incl. 0 (resp_size_zero; size 0 raised ValueError before /repo 21add98); a query is guaranteed a response '
+        'exactly when its start_resp pulse is seen while nothing is owed any more (encoder in state 0; from the first cycle after the '
+        'previous "!" handshake on): resp_session / resp_query_answered; a pulse while a response is owed is ignored by the unchanged code '
+        '(resp_busy_ignores_inputs) and by the specification monitor alike; the consumer drives an arbitrary ready sequence that does not '
+        'depend combinationally on valid',
+        'chain: the output table (reg_out / size_out) is constant during a run; the DUT-side capture registers of createHILUART are not modelled',
         'Py.shrT totalises a negative shift count; the guard Hil.respRaises marks the only call where Python can still raise (state 4 with '
         'negative temp_size, unreachable from power-up by resp_run); the correspondence checks model none <-> real ValueError',
     ]
